@@ -1,7 +1,7 @@
 #!/bin/sh
 # seeds_sweep.sh <seeds...>: the quick check of every property on the unchanged tree under other VERIF_SEED values (false-alarm
 # hunting; used with `vp run`). Prints one line per (seed, property).
-cd "$(dirname "$0")/.."
+cd "$(dirname "$0")/.."; mkdir -p .cache
 for sd in "$@"; do for i in 01 02 03 04 05 06 07 08 09 10 11 12 13 14 15 16 17 18 19 20; do
   VERIF_SEED=$sd python3 scripts/check.py C$i quick > .cache/sweep_${sd}_C$i.log 2>&1
   echo "seed=$sd C$i rc=$? viol=$(grep -c VIOLATION .cache/sweep_${sd}_C$i.log) $(grep VIOLATION .cache/sweep_${sd}_C$i.log | head -1 | cut -c1-150)"
